@@ -85,6 +85,11 @@ def base_messages():
                  [[Var('s', 'x'), Var('av', [Var('i', 1)])]]))
     out.append(E(1, 13, {'path': '/a', 'member': 'M', 'unix_fds': 1}, 'h',
                  [0]))
+    out.append(E(1, 14, {'path': '/a', 'member': 'M', 'unix_fds': 2},
+                 'ahs(yh)', [[0, 1], 'x', [7, 1]]))
+    out.append(E(4, 15, {'path': '/a', 'member': 'S', 'interface': 'a.b'},
+                 'a{sv}a{yd}', [[['k', Var('ah', [0])]], [[1, 0.5]]],
+                 little=False))
     return out
 
 
@@ -233,7 +238,7 @@ def _task_mut(task):
     return res
 
 
-SIG_ALPHABET = 'a(){}ysvx'
+SIG_ALPHABET = 'a(){}ysvxh'
 
 
 def _bodies():
@@ -320,6 +325,19 @@ def _task_families(thorough):
                                           + b'\x01y\0\x05' * (size // 4))))
         fam.append(('big-a(y)-lie', raw_message('a(y)', struct.pack(
             '<I', 2**31) + b'\0' * 4 + b'\x01' * size)))
+        # every element type whose decoder might swallow a read past the
+        # end: the loop must stop where the data stops
+        for et, unit in (('h', b'\0\0\0\0'), ('b', b'\1\0\0\0'),
+                         ('d', b'\0' * 8), ('(h)', b'\0' * 8),
+                         ('g', b'\x01y\0'), ('o', b'\x01\0\0\0/\0\0\0'),
+                         ('v', b'\x01h\0\0\0\0\0\0')):
+            for claim in (size * 50, 2**32 - 4, 2**31):
+                fam.append(('lying-array:a' + et, raw_message(
+                    'a' + et, struct.pack('<I', claim) + b'\0' * 4
+                    + unit * 8)))
+                fam.append(('lying-array:a' + et, raw_message(
+                    'a' + et, struct.pack('>I', claim) + b'\0' * 4
+                    + unit * 8, little=False)))
         fam.append(('big-strings', raw_message(
             's' * 200, (b'\xff\xff\xff\x7f' + b'a' * 60) * (size // 64))))
     for tag, raw in fam:
